@@ -2647,6 +2647,8 @@ def make_ext_modules(I):
     for n in ("IGNORECASE", "I", "MULTILINE", "M", "DOTALL", "S", "VERBOSE", "X"):
         E["re"][n] = int(_b.getattr(_re, n))
     E["warnings"] = {"warn": bi("warnings.warn", lambda I, st, a, k: iter([(st, None)]))}
+    # traceback.format_exc(): a string whose content is unspecified (opaque text, only ever formatted into messages)
+    E["traceback"] = {"format_exc": bi("traceback.format_exc", lambda I, st, a, k: iter([(st, Opaque("traceback text"))]))}
 
     from . import npmodel, bytesmodel
 
